@@ -149,6 +149,8 @@ def rel_units(a, b):
         return 0
     if not (math.isfinite(a) and math.isfinite(b)):
         return CAP
+    if max(abs(a), abs(b)) < 1e-290:          # both at the bottom of the floating-point range: indistinguishable losses
+        return 0
     u = abs(a - b) / (EPS * max(abs(a), abs(b)))
     return int(min(CAP, math.ceil(u)))
 
